@@ -1396,14 +1396,15 @@ class PythonGenericType(DataType):
         orig_isna = data_container.isna()
         coerced_data = data_container.map(self._coerce_element)  # type: ignore[operator]
         failed_selector = coerced_data.isna() & ~orig_isna
-        failure_cases = coerced_data[failed_selector]
 
-        if len(failure_cases) > 0:
+        if failed_selector.any(axis=None):
+            # report the elements that could not be coerced, not the null
+            # values they were replaced with
             raise errors.ParserError(
                 f"Could not coerce {type(data_container)} data_container "
                 f"into type {self.generic_type or self.type}",
                 failure_cases=error_formatters.reshape_failure_cases(
-                    failure_cases, ignore_na=False
+                    data_container[failed_selector], ignore_na=True
                 ),
             )
 
